@@ -17,6 +17,8 @@ WITNESS = {
   'heap': ('samlang-heap', 'crates/samlang-heap/src/lib.rs', 'wx/witness/samlang_heap.rs', 'verif_witness_search'),
   'litgate': ('samlang-parser', 'crates/samlang-parser/src/lexer.rs', 'wx/witness/samlang_parser_lexer.rs', 'verif_witness_search_literals'),
   'lexer': ('samlang-parser', 'crates/samlang-parser/src/lexer.rs', 'wx/witness/samlang_parser_lexer.rs', 'verif_witness_search_positions'),
+  'ccpbin': ('samlang-optimization', 'crates/samlang-optimization/src/conditional_constant_propagation.rs', 'wx/witness/samlang_optimization_ccp.rs', 'verif_witness_search'),
+  'strlit': ('samlang-printer', 'crates/samlang-printer/src/source_printer.rs', 'wx/witness/samlang_printer_source_printer.rs', 'verif_witness_search'),
   'depgraph': ('samlang-services', 'crates/samlang-services/src/dep_graph.rs', 'wx/witness/samlang_services_dep_graph.rs', 'verif_witness_search'),
 }
 
